@@ -11,7 +11,7 @@ import time
 sys.path.insert(0, os.path.dirname(os.path.abspath(__file__)))
 import lib  # noqa: E402
 
-FLAGS = ["-ftrivial-auto-var-init=pattern"]
+FLAGS = ["-ftrivial-auto-var-init=pattern", "-Wno-narrowing"]
 
 
 def main():
